@@ -2,6 +2,7 @@
 import importlib
 
 GROUPS = {
+    "C13": "adaptive",
     "C08": "budget",
     "C06": "timelimiter",
     "C19": "chaos",
